@@ -216,7 +216,7 @@ class ProgramResult:
         self.holes = holes
 
 
-def run_program(session, tree_factory, order=None, runs=1, max_paths=64, set_order="insertion", fresh_output=False):
+def run_program(session, tree_factory, order=None, runs=1, max_paths=64, set_order="insertion", fresh_output=False, keep_going=False):
     """Abstractly run ProtocolCodeGenerator(input).generate(output) `runs` times on one instance over the tree
     returned by tree_factory() ({dir: protocol Elem}) -- or, given a list of factories, over one tree per run (the
     specification edited between the runs); returns Outcomes whose value is a list of ProgramResult."""
@@ -243,7 +243,14 @@ def run_program(session, tree_factory, order=None, runs=1, max_paths=64, set_ord
             World.trace["encodings"] = []
             World.trace["set_order"] = set_order
             World.trace["fresh_output"] = fresh_output
-            it.call(it.getattr(gen, "generate"), [PathObj("/out")], {})
+            try:
+                it.call(it.getattr(gen, "generate"), [PathObj("/out")], {})
+            except PyRaise as pr:
+                if not keep_going:
+                    raise
+                # the caller catches the error and uses the same generator again
+                results.append(("raised", pr.exc))
+                continue
             sk = _Renderer()
             for f in World.trace["files"]:
                 f.path_text = sk.render(f.path)
